@@ -28,7 +28,7 @@ STATUS = {
     "NETWORK_UP": (0x90, 0x01, 0x0015),
     "NETWORK_DOWN": (0x91, 0x01, 0x0016),
     "NOT_JOINED": (0x93, 0x01, 0x0017),
-    "NETWORK_BUSY": (0xA1, 0x01, 0x0004),
+    "NETWORK_BUSY": (0xA1, 0x01, 0x0034),  # v14: TRANSMIT_BUSY, the third status bellows documents as 'busy' there (not the generic BUSY 0x0004)
     "INDEX_OUT_OF_RANGE": (0xB1, 0x01, 0x0027),
     "TABLE_FULL": (0xB4, 0x01, 0x001C),
     "TABLE_ENTRY_ERASED": (0xB6, 0x01, 0x002D),
